@@ -4,7 +4,7 @@ import ast
 
 from .. import AnalysisError
 from ..cfg import ALL_KINDS, NORMAL_KINDS, iter_own
-from ..lib import collections_from, comp_norm, inlined_expr, attr_stores, dominated_by, guard_forms, key_of, norm, render, type_is
+from ..lib import collections_from, comp_norm, inlined_expr, stmts_after, attr_stores, dominated_by, guard_forms, key_of, norm, render, type_is
 from ..report import describe, rule
 
 P = "C19"
@@ -213,6 +213,7 @@ def c19_4(ctx, r):
     gj = ctx.fn("JobRunner._generate_jobs", "C19.4")
     for s2 in [x for x in ctx.cg.sites_in(gj) if (x.constructs or "").endswith(ACC)]:
         h = ctx.arg_for(s2, init, "hpc_job_id")
+        h = inlined_expr(ctx, gj, h) if h is not None else None
         r.check(h is not None and ctx.src(h) == "self._intf.get_current_job_id()", "hpc_job_id = the interface's current job id", key_of(gj, "hpc id source"), s2.loc, f"hpc_job_id={ctx.src(h) if h is not None else None}")
         b = ctx.arg_for(s2, init, "batch_id")
         r.check(b is not None and ctx.src(b) == "self._batch_id", "batch_id = the runner's batch", key_of(gj, "batch id"), s2.loc, f"batch_id={ctx.src(b) if b is not None else None}")
@@ -292,3 +293,94 @@ def c19_7(ctx, r):
     from .c08 import rows_newline_terminated
 
     rows_newline_terminated(ctx, r, "C19.7")
+
+
+@rule(P, "C19.8", "T8", "a commands file reaches the jobs unchanged: each line is the command (outer blanks stripped only) and the per-job options travel from the CLI to every job", min_obligations=6)
+def c19_8(ctx, r):
+    """`jade config create <commands file>`: (1) the command of a job is its line with leading / trailing whitespace removed - nothing that looks
+    *inside* the line (split / join / replace / regex), which would change quoted blanks and tabs the POSIX split must preserve;
+    (2) each documented per-job option of the command (-a/--append-output-dir, --append-job-name, ...) is handed by the CLI function to the
+    auto_config parameter of the same name, and auto_config stores that parameter into the attribute of the same name of every job."""
+    gi = ctx.fn("GenericCommandInputs.__init__", "C19.8")
+    n = 0
+    for s in ctx.cg.sites_in(gi):
+        if not (s.constructs or "").endswith("GenericCommandParameters"):
+            continue
+        n += 1
+        v = next((k.value for k in s.node.keywords if k.arg == "command"), None)
+        loops = ctx.enclosing(gi, s.node, (ast.For,))
+        lv = loops[-1].target.id if loops and isinstance(loops[-1].target, ast.Name) else None
+        e = v
+        seen = 0
+        # follow `line = line.strip()` style rebindings of the loop variable inside the loop body
+        chain = []
+        while e is not None and seen < 6:
+            seen += 1
+            if isinstance(e, ast.Call) and isinstance(e.func, ast.Attribute) and e.func.attr in ("strip", "rstrip", "lstrip") and all(isinstance(a, ast.Constant) for a in e.args):
+                chain.append(e.func.attr)
+                e = e.func.value
+                continue
+            if isinstance(e, ast.Name) and e.id != lv or (isinstance(e, ast.Name) and e.id == lv and chain == []):
+                defs = [x.value for x in ast.walk(loops[-1]) if isinstance(x, ast.Assign) and len(x.targets) == 1 and isinstance(x.targets[0], ast.Name) and x.targets[0].id == e.id] if loops else []
+                if len(defs) == 1 and not (isinstance(defs[0], ast.Name) and defs[0].id == e.id):
+                    e = defs[0]
+                    continue
+            break
+        ok = isinstance(e, ast.Name) and e.id == lv
+        r.check(ok, "the job's command is the line, outer whitespace stripped", key_of(gi, "command derived from the line by more than strip()"), s.loc,
+                f"the command is built as `{ctx.src(v) if v is not None else None}` (reaching `{ctx.src(e) if e is not None else None}`), not the line with only outer whitespace removed: blanks and tabs inside quotes are "
+                "rewritten before the POSIX split, so the process receives other arguments than the configured ones", "launched as the configured command split with POSIX rules")
+    if n != 1:
+        raise AnalysisError("C19.8", f"{n} GenericCommandParameters constructions in GenericCommandInputs.__init__")
+    ac = ctx.fn("GenericCommandConfiguration.auto_config", "C19.8")
+    cr = ctx.fn("config.create", "C19.8")
+    opts = [p for p in ac.params[2:] if p in cr.params]
+    if len(opts) < 3:
+        raise AnalysisError("C19.8", f"per-job options shared by `jade config create` and auto_config: {opts}")
+    sites = ctx.some_sites(cr, "C19.8", short="GenericCommandConfiguration.auto_config")
+    for s in sites:
+        for p in opts:
+            a = ctx.arg_for(s, ac, p)
+            r.check(isinstance(a, ast.Name) and a.id == p, f"`jade config create` hands {p} to auto_config({p}=...)", key_of(cr, f"option {p} not forwarded"), s.loc,
+                    f"auto_config receives {p}={ctx.src(a) if a is not None else 'nothing'} from `jade config create`: the user's --{p.replace('_', '-')} is silently dropped (auto_config swallows unknown keywords) "
+                    "and every job runs without it", "plus the documented appended arguments")
+    for p in opts:
+        st = [x for x in iter_own(ac.node) if isinstance(x, ast.Assign) and isinstance(x.value, ast.Name) and x.value.id == p and any(isinstance(t, ast.Attribute) for t in x.targets)]
+        same = [x for x in iter_own(ac.node) if isinstance(x, ast.Assign) and any(isinstance(t, ast.Attribute) and t.attr == p for t in x.targets)]
+        ok = len(st) == 1 and not guard_forms(ctx, ac, ctx.nodes_of(ac, st[0])[0]) and all(x is st[0] for x in same)
+        r.check(ok, f"auto_config stores {p} into every job", key_of(ac, f"job option {p} source"), ac.loc(st[0]) if st else ac.loc(ac.node),
+                f"auto_config does not store its parameter `{p}` into an attribute of every job exactly once (or job.{p} is set from something else)", "plus the documented appended arguments")
+
+
+@rule(P, "C19.9", "T4", "whoever changes the process working directory restores it on every exit, the exception exit included", min_obligations=1)
+def c19_9(ctx, r):
+    """Jobs are launched (local mode) and scripts are resolved relative to the directory `jade submit-jobs` was started in.  The submitter changes
+    directory only in RepositoryInfo._run_command (git commands run inside the package checkout).  If the restoring chdir is not in a `finally`,
+    a failing git command leaves the process inside the checkout; a caller that tolerates the failure then launches every job from there:
+    relative script paths fail and the recorded exit code is not the job's."""
+    n = 0
+    for fn in ctx.ix.functions.values():
+        if "extensions/demo" in fn.module.relpath:
+            continue
+        ch = [c for c in iter_own(fn.node) if isinstance(c, ast.Call) and ctx.src(c.func) in ("os.chdir", "chdir")]
+        if not ch:
+            continue
+        n += 1
+        saved = {t.id for x in iter_own(fn.node) if isinstance(x, ast.Assign) and isinstance(x.value, ast.Call) and ctx.src(x.value.func) in ("os.getcwd", "getcwd", "Path.cwd") for t in x.targets if isinstance(t, ast.Name)}
+        restores = [c for c in ch if c.args and isinstance(c.args[0], ast.Name) and c.args[0].id in saved]
+        changes = [c for c in ch if c not in restores]
+        if not changes:
+            continue
+        ok = bool(restores)
+        for c in changes:
+            st = ctx.stmt_of(fn, c)
+            rest = stmts_after(ctx, fn, st)
+            # the next statement that can raise must be a try whose finally restores
+            nxt = next((x for x in rest if not (isinstance(x, ast.Assign) and isinstance(x.value, (ast.Constant, ast.Dict, ast.List, ast.Tuple, ast.Name)))), None)
+            okc = isinstance(nxt, ast.Try) and any(any(c2 is x for x in ast.walk(f)) for f in nxt.finalbody for c2 in restores)
+            ok = ok and okc
+        r.check(ok, f"{fn.short}: the directory change is undone in a finally", key_of(fn, "working directory not restored on the exception path"), fn.loc(changes[0]),
+                f"{fn.short} changes the working directory and does not restore it in a `finally` that covers everything after the change: when a statement in between raises, the process stays in the other "
+                "directory - jobs launched afterwards run from there, relative paths in their commands no longer resolve and the recorded exit codes are not the jobs' own", "launched as the configured command")
+    if n < 1:
+        raise AnalysisError("C19.9", "no function changes the working directory any more (rule is moot: remove it)")
